@@ -37,6 +37,13 @@ CLAIMED = {
               "XDEL/XTRIM as filters, ID text parsing; tied to the real Stream and handle_x* handlers in-process (27k evaluations per quick run, source switches detected by regex)."),
         note=TB + "Wall-clock reading is an input of the model; auto IDs are a checked relation; the compare_exchange retry path is assumed not to fire on one thread.",
         ref="DESIGN.md section 5 C15"),
+    "C16": dict(
+        text=("Proof: the four pending-list representations agree after every history (induction over op lists), exactly-once delivery under > for every history and start "
+              "position (Spec) and for the repaired code, XACK counts once / idempotent, XCLAIM moves ownership, XPENDING equals the actual pending set, administration effects "
+              "and isolation - Lean theorems over a transliteration of consumer_groups.rs; every op's reply and the verif_dump of all representations are compared with the model "
+              "in-process (41k evaluations per quick run, Spec judged on the implementation's own dumps)."),
+        note=TB + "Source switches (start id, NOACK, reversed range, explicit-id history) are detected by regex in lib/c16.py; idle times are Booleans; SETID histories are outside exactly_once.",
+        ref="DESIGN.md section 5 C16"),
 }
 
 NOT_YET = {}
